@@ -32,7 +32,8 @@ def build(tier, seed):
     rnd = random.Random(seed)
     if quick:
         special = [k for k in plain if any(o != k and o.startswith(k) and "{" not in o for o in plain)][:6]
-        chosen = sorted(set(rnd.sample(plain, 40) + special)) + braced
+        extremal = [max(plain, key=len), min(plain, key=len), plain[0], plain[-1]]      # longest / shortest / first / last name
+        chosen = sorted(set(rnd.sample(plain, 40) + special + extremal)) + braced
         batches = [chosen[i:i + 18] for i in range(0, len(chosen), 18)]
     else:
         allc = plain + braced
